@@ -556,6 +556,16 @@ UNINITIALIZED_VALUE = UninitializedValue()
 """The only instance of :class:`UninitializedValue`."""
 
 
+def safe_repr(obj: object) -> str:
+    """repr() for use in messages: never raises."""
+    try:
+        return repr(obj)
+    except Exception:
+        # e.g. an int with more digits than sys.get_int_max_str_digits(), a very
+        # deeply nested tuple, or a user-defined __repr__ that raises
+        return f"<{type(obj).__name__} object>"
+
+
 @dataclass(frozen=True)
 class KnownValue(Value):
     """Equivalent to ``typing.Literal``. Represents a specific value.
@@ -654,13 +664,7 @@ class KnownValue(Value):
         elif isinstance(self.val, type):
             return f"type {get_fully_qualified_name(self.val)!r}"
         else:
-            try:
-                text = repr(self.val)
-            except Exception:
-                # e.g. an int with more digits than sys.get_int_max_str_digits(), a
-                # very deeply nested tuple, or a user-defined __repr__ that raises
-                text = f"<{type(self.val).__name__} object>"
-            return f"Literal[{text}]"
+            return f"Literal[{safe_repr(self.val)}]"
 
     def substitute_typevars(self, typevars: TypeVarMap) -> "KnownValue":
         if not typevars or not callable(self.val):
@@ -1496,7 +1500,7 @@ class TypedDictValue(GenericValue):
                         if key_type.val not in self.items:
                             if self.extra_keys is NO_RETURN_VALUE:
                                 return CanAssignError(
-                                    f"Key {key_type.val!r} is not allowed in closed"
+                                    f"Key {safe_repr(key_type.val)} is not allowed in closed"
                                     f" TypedDict {self}"
                                 )
                             elif self.extra_keys is not None:
@@ -2099,12 +2103,12 @@ class MultiValuedValue(Value):
         if not others:
             if has_none:
                 literals.append(KnownValue(None))
-            body = ", ".join(repr(val.val) for val in literals)
+            body = ", ".join(safe_repr(val.val) for val in literals)
             return f"Literal[{body}]"
         else:
             elements = [str(val) for val in others]
             if literals:
-                body = ", ".join(repr(val.val) for val in literals)
+                body = ", ".join(safe_repr(val.val) for val in literals)
                 elements.append(f"Literal[{body}]")
             if has_none:
                 elements.append("None")
@@ -3128,7 +3132,7 @@ class _HashableValue(TypedValue):
                 hash(other.val)
             except Exception as e:
                 return CanAssignError(
-                    f"{other.val!r} is not hashable", children=[CanAssignError(repr(e))]
+                    f"{safe_repr(other.val)} is not hashable", children=[CanAssignError(repr(e))]
                 )
             else:
                 return {}
